@@ -7,7 +7,7 @@ CONSTANTS
   MaxStack = 1
   BindVals <- ClrBindVals
   MaxBindings = 2
-  Enabled = {"Bind", "Call", "Clear", "Finalize", "Unlock", "DefineConstant", "Interactive"}
+  Enabled = {"Bind", "Call", "Clear", "Finalize", "Unlock", "DefineConstant", "Interactive", "Import", "SingletonDirect"}
   NameOrder <- NamesClr
   HookUniverse = {}
   BindApis = {"tuple"}
